@@ -82,6 +82,27 @@ static int check_sig(const unsigned char *bytes, size_t n, const rsig *model, co
 			vf_outcome("multi:%s", ok ? "OK" : "not-ok");
 		}
 	}
+	/* the consistency conditions are properties of the signature: an admissible input level supplied for the document (1 and the
+	 * first link's level correction itself, when the signature has one and is not of the legacy form) does not change the verdict */
+	if (rc == KSI_OK && result != NULL && !model->has_rfc) {
+		uint64_t lc = rs_first_level_corr(model), L[2];
+		int nl = 0, li;
+		if (lc >= 1 && lc <= 255) { L[nl++] = 1; if (lc > 1) L[nl++] = lc; }
+		for (li = 0; li < nl; li++) {
+			KSI_PolicyVerificationResult *r3 = NULL;
+			int rc3, ok3;
+			vc.docAggrLevel = L[li];
+			rc3 = KSI_SignatureVerifier_verify(KSI_VERIFICATION_POLICY_INTERNAL, &vc, &r3);
+			vf_count("impl_calls", 1);
+			ok3 = (rc3 == KSI_OK && r3 != NULL && r3->finalResult.resultCode == KSI_VER_RES_OK);
+			if (ok3 != ok || (rc3 == KSI_OK && r3 != NULL && (r3->finalResult.resultCode != result->finalResult.resultCode || r3->finalResult.errorCode != result->finalResult.errorCode)))
+				vf_fail("verdict-depends-on-input-level", "%s: verdict rc=0x%x result=%d error=0x%x without an input level, rc=0x%x result=%d error=0x%x with the admissible input level %llu (first level correction %llu)",
+				        what, rc, (int)result->finalResult.resultCode, (int)result->finalResult.errorCode, rc3, r3 ? (int)r3->finalResult.resultCode : -1, r3 ? (int)r3->finalResult.errorCode : -1, (unsigned long long)L[li], (unsigned long long)lc);
+			else vf_outcome("with-input-level:%s", ok3 ? "OK" : "not-ok");
+			KSI_PolicyVerificationResult_free(r3);
+		}
+		vc.docAggrLevel = 0;
+	}
 	KSI_PolicyVerificationResult_free(result);
 	KSI_VerificationContext_clean(&vc);
 	/* KSI_Signature_parse applies the internal policy at parse time */
